@@ -112,6 +112,7 @@ type G struct {
 	PanicMsg    string // message of the panic being unwound
 	PanicWhere  string // where it was raised
 	UnwindLevel int    // number of frames when the frame being unwound is on top
+	PendingW    string // RWMutex key this goroutine is blocked on as a WRITER (a pending writer excludes new readers)
 	Goexit      bool   // runtime.Goexit: deferred calls run frame by frame, then the goroutine ends (no panic)
 	Recovered   bool   // a deferred call recovered the panic: finish the frame's defers, then leave through its recover block
 	WaitKey   string
